@@ -23,7 +23,7 @@ CONFIG = {
             "intermediate byte strings and the complete encoder and decoder state (window, three LRU tables with MRU bits, lastRnd; dumped in-package) are compared with the model. "
             "NETWORK LEVEL (cases (net ...)): a real sending wsPeerMsgCodec and a real receiving one (table sizes 16..2048) driven as the broadcast path / writeLoopSendMsg / readLoop / handleVPError do, "
             "histories interleaving compressible votes with inputs on which StatefulEncoder.Compress fails at every point of its parse (votes the stateless encoder refuses: sig.ps != 0 or keys out of order, "
-            "sent as raw msgpack by the fallback; stateless frames cut at every field boundary, with an invalid or widened uint marker at every uint field, with trailing bytes), plus the history of seeded/m31; "
+            "sent as raw msgpack by the fallback, most of them longer than MaxCompressedVoteSize; stateless frames cut at every field boundary, with an invalid or widened uint marker at every uint field, with trailing bytes), plus the history of seeded/m31; "
             "per payload: wire messages, deliveries, both statefulVoteEnabled flags and (while both are set) the full encoder and decoder state dumped in package vpack; spec_ok: every delivered byte string "
             "is the vote sent (for raw payloads: what a fresh real codec delivers over plain AV), something is delivered or the stream is aborted, encoder state = decoder state while both flags are set. "
             "A connection is non-trivial when at least 2 votes were reproduced and at least one was compressed with a table/window reference or round delta; distinct = distinct case lines.",
@@ -39,5 +39,5 @@ CONFIG = {
     "trusted_base": ["modelled: network/vpack/{msgp,parse,vpack,lru_table,proposal_window,dynamic_vpack}.go as Gallina (coq/model/Vpack.v); Go errors = None, no panics in the model",
                      "only tested, not proved: absence of Go panics on malformed frames (recover() in the harness maps a panic to a spec failure)",
                      "modelled: network/msgCompressor.go vpackCompressVote / wsPeerMsgCodec.compress / decompress and the abort handling of wsPeer.writeLoopSendMsg / handleVPError (coq/model/VpackNet.v); feature negotiation, goroutines and the websocket are not",
-                     "VERIF_C42_TRUNC=1 additionally generates refused votes longer than MaxCompressedVoteSize (recorded signature fallback_truncation, theorem fallback_truncates_refuted); off by default"],
+                     "the msgpack fallback of vpackCompressVote is modelled as fixed by 8ff1e5c455 (whole vote); broadcast_data_unfixed is the truncating variant"],
 }
